@@ -139,7 +139,7 @@ fn scenario<C: Suite>(e: &Value) -> Vec<(String, bool, String)> {
             let es: Vec<ElGamalDecryptionShare<C>> = list("elgamal_shares").iter().filter_map(|b| ElGamalDecryptionShare::<C>::try_from(b.as_slice()).ok()).collect();
             chk("decode-all", ss.len() == 3 && ps.len() == 3 && gs.len() == 3 && ds.len() == 3 && es.len() == 3, "".into());
             if ss.len() == 3 && ps.len() == 3 && gs.len() == 3 && ds.len() == 3 && es.len() == 3 {
-                for (a, b) in [(0usize, 1usize), (1, 2), (0, 2)] {
+                for (a, b) in [(0usize, 1usize), (1, 2), (0, 2), (1, 0), (2, 1), (2, 0)] {
                     let k = SecretKey::<C>::combine(&[ss[a].clone(), ss[b].clone()]);
                     chk("combine", matches!(&k, Ok(k) if k.to_be_bytes().to_vec() == sk), format!("pair {},{}", a, b));
                     let p = PublicKey::<C>::from_shares(&[ps[a], ps[b]]);
@@ -154,6 +154,15 @@ fn scenario<C: Suite>(e: &Value) -> Vec<(String, bool, String)> {
                         let d = ElGamalDecryptionKey::<C>::from_shares(&[es[a].clone(), es[b].clone()]).map(|k| pt(&k.decrypt(&ct)));
                         chk("elgamal-decrypt-with-shares", matches!(&d, Ok(x) if *x == hb(&e["elgamal_plain_point"])), "".into());
                     }
+                }
+                // all three shares, in every order
+                for ord in [[0usize, 1, 2], [0, 2, 1], [1, 0, 2], [1, 2, 0], [2, 0, 1], [2, 1, 0]] {
+                    if let Ok(ct) = SignCryptCiphertext::<C>::try_from(hb(&e["signcrypt_ct"]).as_slice()) {
+                        let d = Option::<Vec<u8>>::from(ct.decrypt_with_shares(&[ds[ord[0]].clone(), ds[ord[1]].clone(), ds[ord[2]].clone()]));
+                        chk("decrypt-with-shares-any-order", d == Some(hb(&e["msg"])), format!("order {:?}", ord));
+                    }
+                    let g = Signature::<C>::from_shares(&[gs[ord[0]], gs[ord[1]], gs[ord[2]]]);
+                    chk("signature-from-shares-any-order", matches!(&g, Ok(g) if Vec::<u8>::from(g) == hb(&e["whole_sig"])), format!("order {:?}", ord));
                 }
                 for i in 0..3 {
                     chk("share-verify", ps[i].verify(&gs[i], hb(&e["msg"])).is_ok(), format!("share {}", i));
